@@ -156,6 +156,7 @@ type SSEServer struct {
 	logger               Logger                                                     // Logger for this server.
 	requestID            atomic.Int64                                               // Request ID counter for generating unique request IDs.
 	responses            map[uint64]interface{}                                     // Map for storing response channels.
+	responseOwners       map[uint64]string                                          // Session each pending request was sent to (guarded by responsesMu).
 	responsesMu          sync.RWMutex                                               // Mutex for responses map.
 	notificationHandlers map[string]ServerNotificationHandler                       // Map of notification handlers by method name.
 	notificationMu       sync.RWMutex                                               // Mutex for notification handlers map.
@@ -204,6 +205,7 @@ func NewSSEServer(name, version string, opts ...SSEOption) *SSEServer {
 		keepAliveInterval:    30 * time.Second,
 		logger:               GetDefaultLogger(),
 		responses:            make(map[uint64]interface{}),
+		responseOwners:       make(map[uint64]string),
 		notificationHandlers: make(map[string]ServerNotificationHandler),
 	}
 
@@ -746,10 +748,17 @@ func (s *SSEServer) handleResponseMessage(ctx context.Context, rawMessage json.R
 	// Get the response channel.
 	s.responsesMu.RLock()
 	responseChanInterface, exists := s.responses[requestIDUint]
+	owner := s.responseOwners[requestIDUint]
 	s.responsesMu.RUnlock()
 
 	if !exists {
 		s.logger.Debugf("Received response for unknown request ID: %d", requestIDUint)
+		return
+	}
+
+	// An answer is only accepted from the session the request was sent to.
+	if session == nil || owner != session.sessionID {
+		s.logger.Errorf("Ignoring response for request ID %d posted by another session", requestIDUint)
 		return
 	}
 
@@ -1367,12 +1376,17 @@ func (s *SSEServer) SendRequest(ctx context.Context, sessionID string, request *
 		s.responses = make(map[uint64]interface{})
 	}
 	s.responses[requestIDUint] = resultChan
+	if s.responseOwners == nil {
+		s.responseOwners = make(map[uint64]string)
+	}
+	s.responseOwners[requestIDUint] = sessionID
 	s.responsesMu.Unlock()
 
 	// Clean up the response channel when done
 	defer func() {
 		s.responsesMu.Lock()
 		delete(s.responses, requestIDUint)
+		delete(s.responseOwners, requestIDUint)
 		s.responsesMu.Unlock()
 	}()
 
